@@ -120,3 +120,108 @@ void run(const Value& plan, Result& r)
 Registrar reg({"solve", "C01", "fast,trace,asan", gen, run});
 
 } // namespace
+
+/* ---------------------------------------------------------------------------------------------------------- */
+/* C12: the solution after a fixed number of cycles is reproducible across schedules and (to rounding) across T */
+/* ---------------------------------------------------------------------------------------------------------- */
+namespace {
+
+Value gen_repro_solve(uint64_t seed, const std::string& tier)
+{
+    Rng g(sim::mix(seed, 0xC125));
+    SolverOpts o     = gen_opts(g, tier == "thorough" ? 129L * 256L : 65L * 128L + 1, true);
+    o.aniso          = 0;
+    o.max_iterations = g.range(1, 3);
+    o.abs_tol        = 0.0; // never satisfied: exactly max_iterations cycles are run
+    o.rel_tol        = -1.0;
+    o.with_exact     = false;
+    o.threads        = g.range(2, 16);
+    Value p          = Value::object();
+    p["opts"]        = o.to_json();
+    p["sim"]         = gen_sim(g, false);
+    static const int Ts[] = {1, 2, 3, 4, 8, 16, 32};
+    p["T2"]               = Ts[g.below(7)];
+    p["red2"]             = g.chance(0.5) ? 0.5 : 1.0;
+    return p;
+}
+
+Vector<double> solve_once(const SolverOpts& o, const Value& simcfg, Result& r, int* levels = nullptr)
+{
+    Problem fresh;
+    auto s = new_solver(o, fresh);
+    CoutCapture cap;
+    SimRun sr(simcfg, r);
+    s->setup();
+    s->solve();
+    sr.finish();
+    if (levels)
+        *levels = GMGPolarVerifAccess::number_of_levels(*s);
+    return s->solution();
+}
+
+void run_repro_solve(const Value& plan, Result& r)
+{
+    SolverOpts o = SolverOpts::from_json(plan.at("opts"));
+    r.signature  = "repro_solve " + o.str();
+    r.nontrivial = true;
+    int levels   = 2;
+    std::vector<Vector<double>> sols;
+    for (int k = 0; k < 3; k++) {
+        Value s          = plan.at("sim");
+        s["shortfall_p"] = 0.0;
+        s["sched_seed"]  = (long long)(sim::mix(plan.at("sim").at("sched_seed").as_u64(), 40 + k) >> 1);
+        if (k == 1)
+            s["policy"] = (int)sim::POL_RR;
+        sols.push_back(solve_once(o, s, r, &levels));
+    }
+    if (r.sim.par_regions > 0)
+        r.probe("multi_thread_region_executed");
+    for (int k = 1; k < 3; k++) {
+        int idx = -1;
+        if (!bit_equal(sols[0], sols[k], &idx))
+            r.fail("C12.solution_not_reproducible",
+                   fmt("schedule %d vs 0 after %d cycles: index %d %.17g vs %.17g; %s", k, o.max_iterations, idx,
+                       idx >= 0 ? sols[k][idx] : 0.0, idx >= 0 ? sols[0][idx] : 0.0, o.str().c_str()));
+    }
+    // another thread count / per-level reduction
+    SolverOpts o2 = o;
+    o2.threads    = (int)plan.at("T2").as_int(1);
+    o2.reduction  = plan.at("red2").as_double(1.0);
+    if (o2.threads != o.threads || o2.reduction != o.reduction) {
+        Vector<double> u2 = solve_once(o2, canonical_sim(), r);
+        r.probe(o2.threads == 1 ? "compared_with_T1" : "compared_with_T2");
+        // compare in residual space
+        Problem p = make_problem(o.prob);
+        Problem keep;
+        auto s = new_solver(o, keep);
+        {
+            CoutCapture cap;
+            SimRun sr(canonical_sim(), r);
+            s->setup();
+        }
+        model::RefOperator A;
+        A.build(s->grid(), *p.geometry, *p.coeff, o.dirbc);
+        std::vector<double> d(A.n), ad, um, f, absu;
+        for (int m = 0; m < A.n; m++)
+            d[m] = sols[0][A.to_grid[m]] - u2[A.to_grid[m]];
+        A.apply(d, ad);
+        A.to_model(sols[0], um);
+        A.rhs(*p.source, *p.bc, f);
+        A.apply_abs(um, absu);
+        double sc = 0, got = 0;
+        for (int m = 0; m < A.n; m++) {
+            sc  = std::max(sc, absu[m] + std::fabs(f[m]));
+            got = std::max(got, std::fabs(ad[m]));
+        }
+        double allowed = 16.0 * 96.0 * EPS * sc * o.max_iterations * (o.pre + o.post + 2) * (double)(1 << std::min(levels, 8));
+        r.maxim("T_residual_diff_units", got / (allowed + 1e-300));
+        if (!(got <= allowed))
+            r.fail("C12.thread_count_changes_solution",
+                   fmt("T=%d/red=%g vs T=%d/red=%g after %d cycles: ||A(u-u')||_inf = %.3e > %.3e; %s", o.threads,
+                       o.reduction, o2.threads, o2.reduction, o.max_iterations, got, allowed, o.str().c_str()));
+    }
+}
+
+Registrar reg2({"repro_solve", "C12", "fast", gen_repro_solve, run_repro_solve});
+
+} // namespace
